@@ -327,7 +327,7 @@ PROGRAMS = {
     "C20": prog_pickle,
     "C09": prog_copy,
 }
-COUNTS = {"quick": 160, "thorough": 3000}
+COUNTS = {"quick": 500, "thorough": 8000}
 
 
 def make_history(pid, seed, index):
@@ -373,6 +373,8 @@ def validate(hists, nbatch=None):
         json.dump([to_tlc(h) for h in batches[bi]], open(path, "w"))
         open(os.path.join(wd, "tr.cfg"), "w").write(CFG)
         res = C.run_tlc("XoHeapTrace", "tr.cfg", workdir=wd, workers=1, timeout=3000, env={"TRACE_FILE": path})
+        if res["wall"] > 60 and os.environ.get("VERIF_DEBUG"):
+            print(f"SLOW batch {bi}: {res['wall']:.0f}s", [h.get("gen") for h in batches[bi]][:3], flush=True)
         vs = C.tlc_tuples(res["out"], "VERDICT")
         if res["rc"] != 0 or len(vs) != len(batches[bi]):
             keep = os.path.join(C.OUT, f"tlc_failure_{os.getpid()}_{bi}")
